@@ -459,7 +459,9 @@ class Writer:
         hp = []
         byname = {p['name']: p for p in m['ports']}
         for p in m['ports']:
-            if m['style'] == 'ansi':
+            if 'alias' in p:
+                hp.append('.' + self.opt() + vname(p['name']) + self.opt() + '(' + self.opt() + self.expr(p['alias']) + self.opt() + ')')
+            elif m['style'] == 'ansi':
                 w = p['width']
                 # 'inherit_dir': no direction keyword of its own (takes the previous port's); 'decl_type': net type
                 hp.append(('' if p.get('inherit_dir') else p['dir'] + self.sp()) +
@@ -473,11 +475,12 @@ class Writer:
         for it in m['body']:
             k = it['k']
             if k == 'portdecl':
-                p0 = byname[it['ports'][0]]
-                w = p0['width']
+                p0 = portdecl_view(it, byname)
                 o.append('  ' + self.attrs(p0.get('attrs') or []) + p0['dir'] + self.sp() + ((p0['decl_type'] + self.sp()) if p0.get('decl_type') else '') +
-                         self.rng_txt(None if w is None else w - 1, None if w is None else 0) +
+                         self.rng_txt(p0['msb'], p0['lsb']) +
                          (self.opt() + ',' + self.sp()).join(vname(n) for n in it['ports']) + self.opt() + ';\n')
+            elif k == 'defparam':
+                o.append('  defparam' + self.sp() + vname(it['inst']) + self.opt() + '.' + it['key'] + self.sp() + '=' + self.sp() + it['value'] + self.opt() + ';\n')
             elif k == 'wire':
                 o.append('  ' + self.attrs(it['attrs']) + it['type'] + self.sp() + self.rng_txt(it['msb'], it['lsb']) +
                          (self.opt() + ',' + self.sp()).join(vname(n) for n in it['names']) + self.opt() + ';\n')
@@ -520,6 +523,18 @@ class Writer:
             if self.noisy and self.r.random() < 0.3:
                 parts.append('\n// ----\n')
         return ''.join(parts)
+
+
+def portdecl_view(it, byname):
+    """direction / net type / range / attributes of a port declaration item: those of its first port, unless the item
+    carries its own ('dir', 'decl_type', 'msb', 'lsb', 'attrs': only the wild designs of verilog_wild.py do)"""
+    p0 = byname.get(it['ports'][0]) or {'dir': 'input', 'width': None}
+    w = p0.get('width')
+    out = {'dir': it.get('dir', p0.get('dir')), 'decl_type': it.get('decl_type', p0.get('decl_type')),
+           'msb': None if w is None else w - 1, 'lsb': None if w is None else 0, 'attrs': it.get('attrs', p0.get('attrs') or [])}
+    if 'msb' in it:
+        out['msb'], out['lsb'] = it['msb'], it['lsb']
+    return out
 
 
 def render(design, rng, noisy=True):
